@@ -45,7 +45,7 @@ def run(ctx):
 
 
 def _run(ctx, quick, pool):
-    A = dict(Mode="adaptive")
+    A = dict(Mode="adaptive", Extras={True})     # solver with extra state: the terms carry (y, extra) provenance
     tmark = {}
     # ---- 1. generation of behaviours (needed first) -------------------------------------------------------
     gen_kw = dict(TEnds={8}, MaxInterior=1, Dts={4, 8}, DtMins={2, 4}, StepVals={0, 2, 4, 8}, MaxTrials=6) if quick else \
@@ -70,17 +70,26 @@ def _run(ctx, quick, pool):
         side = [("adaptive: exhaustive safety + Terminates under WF, all environments",
                  dict(spec="FairSpec", invariants=loop.ADAPT_INVS, properties=loop.ADAPT_PROPS + ("Terminates",),
                       KeepHist=False, workers=6, timeout=2400, coverage=True, TEnds={8, 12}, MaxInterior=2, Dts={4, 8, 12},
-                      DtMins={2, 4, 6}, StepVals={0, 2, 4, 6, 8, 12}, **A)),
+                      DtMins={2, 4, 6}, StepVals={0, 2, 4, 6, 8, 12}, Mode="adaptive", Extras={True, False})),
                 ("adaptive: exhaustive safety, longer interval",
                  dict(invariants=loop.ADAPT_INVS, properties=loop.ADAPT_PROPS, KeepHist=False, workers=6, timeout=2400,
                       TEnds={16}, MaxInterior=1, Dts={4, 8}, DtMins={2, 4, 6}, StepVals={0, 2, 4, 8, 12, 16}, **A))]
     side += [("seeded design defects (adaptive): each must be caught",
               dict(invariants=("Detect",), action_constraints=("DetectAct",), TEnds={8}, MaxInterior=1, Dts={4}, DtMins={2},
                    StepVals={0, 2, 4, 8}, KeepHist=False, MaxTrials=5, Bugs={"none"} | set(loop.ADAPT_BUGS), workers=2,
-                   timeout=600, **A)),
-             ("seeded design defect noForce: never terminates, caught by TrialBound (safety shadow of Terminates)",
-              dict(invariants=("Detect",), TEnds={4}, MaxInterior=0, Dts={4}, DtMins={2}, StepVals={0, 2, 4},
-                   KeepHist=False, MaxTrials=14, Bugs={"none", "noForce"}, workers=2, timeout=300, **A))]
+                   timeout=600, **A))]
+    if not quick:
+        side += [("seeded design defect noForce: never terminates, caught by TrialBound (safety shadow of Terminates)",
+                  dict(invariants=("Detect",), TEnds={4}, MaxInterior=0, Dts={4}, DtMins={2}, StepVals={0, 2, 4},
+                       KeepHist=False, MaxTrials=14, Bugs={"none", "noForce"}, workers=2, timeout=300, **A))]
+    side += [("seeded design defects extraOnReject / fullValue with histories: caught by AcceptedOnly",
+              dict(invariants=("Detect",), action_constraints=("DetectAct",), TEnds={4}, MaxInterior=0, Dts={8}, DtMins={2},
+                   StepVals={0, 2, 4, 8}, KeepHist=True, MaxTrials=4, Bugs={"none", "extraOnReject", "fullValue"}, workers=2,
+                   timeout=300, **A)),
+             ("seeded design defect noForce: Terminates refuted under weak fairness",
+              dict(spec="FairSpec", properties=("Terminates",), TEnds={4}, MaxInterior=0, Dts={4}, DtMins={2},
+                   StepVals={0, 2, 4}, KeepHist=False, Bugs={"noForce"}, workers=1, timeout=300,
+                   expect=("Terminates", "<temporal>"), **A))]
     ex = ThreadPoolExecutor(max_workers=3)
     side_futs = [(label, ex.submit(loop.run_loop_spec, None, label, **kw)) for label, kw in side]
 
@@ -91,12 +100,27 @@ def _run(ctx, quick, pool):
     items_by_cfg = {}
     n_exact = 0
     for i, b in enumerate(behs):
+        if quick and (i + ctx.seed) % 2:
+            continue            # quick: every other behaviour here (the others run as model traces and, when they
+                                # contain a rejection, on a reversible-Heun configuration below)
         reps = 1 if quick else 3
         for r in range(reps):
             ci = (i * reps + r + ctx.seed) % ncfg
             items_by_cfg.setdefault(ci, []).append(dict(beh=b, mode="exact", t0=[0.0, 0.25, -0.5, 1.0][(i + r) % 4],
                                                         j=[3, 4, 5][(i + r) % 3], bi=i))
             n_exact += 1
+    # solvers with extra state: every behaviour with a rejection (quick: every second one) additionally on a
+    # reversible-Heun configuration, exact and with the real controller
+    rh = [ci for ci, c in enumerate(configs) if c["has"]]
+    n_rh = 0
+    for i, b in enumerate(behs):
+        if not any(not s["acc"] for s in b["sched"]) or (quick and (i + ctx.seed) % 2 == 0):
+            continue
+        ci = rh[(i + ctx.seed) % len(rh)]
+        items_by_cfg.setdefault(ci, []).append(dict(beh=b, mode="exact" if n_rh % 3 else "classes",
+                                                    t0=[0.0, 0.25, -0.5, 1.0][i % 4], j=[3, 4, 5][i % 3], bi=i))
+        n_exact += bool(n_rh % 3)
+        n_rh += 1
     # estimate-class schedules (distinct), real controller
     seen = {}
     for i, b in enumerate(behs):
@@ -124,6 +148,8 @@ def _run(ctx, quick, pool):
             ctx.violation(key, msg, replay=replay)
 
     n_class = 0
+    rh_rejecting = [0, 0]        # runs of a solver with extra state that contain a rejected trial: scripted, natural
+    details = {}
     for job, outs in zip(jobs, pool.imap(loop.c14_scripted, jobs, chunksize=1)):
         covered.add(loop.cfg_key(job["c"]))
         for item, out in zip(job["items"], outs):
@@ -135,7 +161,10 @@ def _run(ctx, quick, pool):
             if out["trace"] is not None:
                 tid = f"{'E' if item['mode'] == 'exact' else 'C'}{len(traces)}"
                 traces.append((tid, out["trace"][0], out["trace"][1], dict(key=out["key"], replay=out["replay"])))
+                details[tid] = out.get("detail", "")
             n_class += item["mode"] == "classes"
+            if job["c"]["has"] and out.get("nrej", 0) > 0:
+                rh_rejecting[0] += 1
             for d in out["drift"][:1]:
                 ctx.drift(f"{loop.cfg_key(job['c'])}: {d}")
             b = item["beh"]
@@ -161,6 +190,9 @@ def _run(ctx, quick, pool):
             continue
         tid = f"N{len(traces)}"
         traces.append((tid, out["trace"][0], out["trace"][1], dict(key=out["key"], replay=pr)))
+        details[tid] = out.get("detail", "")
+        if pr["label"] == "reversible_heun" and out["stats"]["rejected"] > 0:
+            rh_rejecting[1] += 1
         nat_stats[pr["name"]] = out["stats"]
         for d in out["drift"][:1]:
             ctx.drift(f"{pr['name']}: {d}")
@@ -193,13 +225,14 @@ def _run(ctx, quick, pool):
         if set(bad) <= MECHANISM_ONLY:
             ctx.drift(f"{inf['key']}: only mechanism-level clauses {bad} fail at event {at}: {e}")
             continue
-        ctx.violation(dict(inf["key"], check="trace:" + "+".join(sorted(bad))),
-                      f"TLC rejects the recorded run at event {at}: clauses {bad} fail on {e}", replay=inf["replay"])
+        report(dict(inf["key"], check="trace:" + "+".join(sorted(bad))),
+               f"TLC rejects the recorded run at event {at}: clauses {bad} fail on {e}"
+               + (f" [{details[tid]}]" if details.get(tid) else ""), inf["replay"])
     tmark["trace_validation"] = round(time.time() - t0, 1)
 
     # ---- 6. exploration: tolerance monotonicity on a closed-form SDE ---------------------------------------------
     t0 = time.time()
-    expl = loop.tolerance_exploration(ctx.seed, n_paths=4 if quick else 16)
+    expl = loop.tolerance_exploration(ctx.seed, n_paths=3 if quick else 16)
     ctx.notes["exploration_tolerance_vs_true_error"] = dict(
         problem="dy = -2 y dt + 0.75 y dW (Ito, closed form), adaptive Milstein, mean |y(1) - exact| over paths",
         mean_abs_error_by_tolerance=expl, status="exploration, not a verdict")
@@ -218,6 +251,11 @@ def _run(ctx, quick, pool):
         ctx.add_tlc(r, label)
         if "(adaptive): each" in label:
             caught.update(loop.check_seeded_defects(r, loop.ADAPT_BUGS, label))
+        elif "AcceptedOnly" in label:
+            c2 = loop.check_seeded_defects(r, {"extraOnReject": ("AcceptedOnly",), "fullValue": ("AcceptedOnly",)}, label)
+            caught["extraOnReject (history)"] = c2["extraOnReject"]
+        elif "Terminates refuted" in label:
+            caught["noForce (liveness)"] = [r.violated]
         elif "TrialBound" in label:
             caught["noForce (non-termination)"] = loop.check_seeded_defects(r, {"noForce": ("TrialBound",)}, label)["noForce"]
     ex.shutdown()
@@ -229,7 +267,8 @@ def _run(ctx, quick, pool):
 
     ctx.rule = ("TLC enumerates every adaptive behaviour (estimate class and next step size chosen adversarially among "
                 "{below a tick, 2, 4, 8} ticks) of <= 6 trials over T=8%s ticks for dt in {4,8}, dt_min in {2,4}, <= 1 "
-                "interior output; each is replayed on the real loop with scripted "
+                "interior output; each (quick: every other one, the rest with rejections on reversible Heun) is replayed on the "
+                "real loop with scripted "
                 "compute_error/update_step_size (exact), "
                 "each distinct estimate-class sequence also with the real controller; natural runs: %d problems (stiff "
                 "linear, oscillatory, example SDEs, rtol=atol in {1e-2,1e-3,1e-4}, dt_min hit, float32/64); "
@@ -247,6 +286,9 @@ def _run(ctx, quick, pool):
         "termination is decided by watchdogs: trials <= 4 (span/dt_min + 1) + 50, and at most 400 consecutive rejected trials "
         "from one start time (the real controller shrinks by >= 6.8% per rejection: <= 135 rejections from span to span/2^14)",
     ]
+    if min(rh_rejecting) == 0:
+        raise RuntimeError(f"no run of a solver with extra state contains a rejected trial (scripted, natural) = {rh_rejecting}")
+    ctx.notes["runs_with_extra_state_and_rejections"] = dict(scripted=rh_rejecting[0], natural=rh_rejecting[1])
     ctx.notes["behaviours_enumerated_by_tlc"] = len(behs)
     ctx.notes["exact_replays"] = n_exact
     ctx.notes["estimate_class_replays_with_real_controller"] = n_class
